@@ -8,7 +8,6 @@ Byte == 0..255
 Seqs(S, n) == [1..n -> S]
 
 \* every byte string of length <= 2, for VarInt and VarLong
-Short2 == UNION {Seqs(Byte, n) : n \in 0..2}
 
 \* payload patterns used to fill the 7 payload bits of long inputs
 Pat(k, i) == CASE k = 1 -> 0
@@ -35,7 +34,8 @@ Ladders == {Ladder(k, t, j, pk) : k \in 0..13, t \in BOOLEAN, j \in 0..2, pk \in
 B3 == {0, 1, 2, 63, 64, 126, 127}
 Three == {[i \in 1..3 |-> (IF c[i] THEN 128 ELSE 0) + p[i]] : c \in [1..3 -> BOOLEAN], p \in [1..3 -> B3]}
 
-Streams(maxShape, pats) == Short2 \cup Ladders \cup Three \cup UNION {Shapes(n, k) : n \in 3..maxShape, k \in pats}
+\* one set per (length, pattern): never unioned (TLC's union of comprehension sets is quadratic)
+ShapeSets(maxShape, npats) == [j \in 1..((maxShape - 2) * npats) |-> Shapes(((j - 1) \div npats) + 3, ((j - 1) % npats) + 1)]
 
 \* ---- writer inputs: <<digits, ext>> ----
 Digit == 0..127
@@ -58,4 +58,5 @@ Negatives == {<<<<>>, 127>>, <<<<126>>, 127>>, <<<<0>>, 127>>, <<<<0, 0, 0, 0, 1
 
 NegativeOnly == Negatives
 None         == {}
+NoStreams    == <<>>
 =============================================================================
